@@ -175,3 +175,29 @@ func passesLike(in ssa.Instruction, pred func(ssa.Instruction) bool, depth int) 
 		Sep: func(x ssa.Instruction) bool { return passesLike(x, pred, depth-1) }}).Run(nil)
 	return w == ""
 }
+
+// writesLike: the instruction satisfies pred, or is a static call (not go) of a module function whose body —
+// or that of its static module callees, depth-limited — contains an instruction that does: the effect may happen here.
+func writesLike(in ssa.Instruction, pred func(ssa.Instruction) bool, depth int) bool {
+	if pred(in) {
+		return true
+	}
+	if depth <= 0 {
+		return false
+	}
+	ci, ok := in.(ssa.CallInstruction)
+	if !ok {
+		return false
+	}
+	callee := ci.Common().StaticCallee()
+	if callee == nil || callee.Blocks == nil || callee.Pkg == nil || !strings.HasPrefix(callee.Pkg.Pkg.Path()+"/", Mod) {
+		return false
+	}
+	found := false
+	allInstrs(callee, func(x ssa.Instruction) {
+		if !found && writesLike(x, pred, depth-1) {
+			found = true
+		}
+	})
+	return found
+}
